@@ -3,6 +3,7 @@ pipeline that serializes to the same document and, under the same seed and input
 bit-identical outputs; every constructor argument at non-default values; plain JSON types only."""
 import copy
 import json
+import os
 import random
 
 import numpy as np
@@ -80,9 +81,27 @@ def check_pipeline(site, build, data_fn, seed, viol, case):
         viol.append({'site': site + ':serialize', 'case': case, 'observed': '%s: %s' % (type(e).__name__, e),
                      'expected': 'serializable to JSON and YAML'})
         return
-    for carrier, loaded in (('dict', copy.deepcopy(doc)), ('json', json.loads(text)), ('yaml', yaml.safe_load(ytext))):
+    import tempfile, shutil
+    tmpd = tempfile.mkdtemp(prefix='c14_', dir='/var/tmp')
+
+    def via_file(fmt):
+        # the library's own file carriers (save / load), not only the dict API
+        path = os.path.join(tmpd, 'pipe.' + fmt)
+        A.save(pipe, path, data_format=fmt)
+        return A.load(path, data_format=fmt)
+    carriers = (('dict', lambda: A.from_dict(copy.deepcopy(doc))), ('json', lambda: A.from_dict(json.loads(text))),
+                ('yaml', lambda: A.from_dict(yaml.safe_load(ytext))), ('json-file', lambda: via_file('json')),
+                ('yaml-file', lambda: via_file('yaml')))
+    try:
+        return _check_carriers(site, pipe, doc, carriers, data_fn, seed, viol, case)
+    finally:
+        shutil.rmtree(tmpd, ignore_errors=True)
+
+
+def _check_carriers(site, pipe, doc, carriers, data_fn, seed, viol, case):
+    for carrier, load_it in carriers:
         try:
-            pipe2 = A.from_dict(loaded)
+            pipe2 = load_it()
             doc2 = A.to_dict(pipe2)
         except Exception as e:  # noqa
             viol.append({'site': site + ':load', 'case': case, 'carrier': carrier,
@@ -141,8 +160,12 @@ def run(seed=0, tier='quick', hints=None, broken=False):
             extra[kw.get('cropping_box_key', 'cropping_bbox')] = (2, 2, 1, 7, 8, 6)
         case = {'class': name, 'kwargs': repr(kw)}
 
-        def build(name=name, kw=kw, bp=bp):
-            return A.Compose([getattr(A, name)(p=1.0, **kw)], bbox_params=bp)
+        # floats whose shortest repr is in exponent form or long: a carrier that re-parses text must give them back
+        pval = 1.0 if rng.random() < 0.7 else rng.choice([1e-05, 5e-07, 0.30000000000000004, 0.1])
+        case['p'] = pval
+
+        def build(name=name, kw=kw, bp=bp, pval=pval):
+            return A.Compose([getattr(A, name)(p=pval, **kw)], bbox_params=bp)
 
         def data_fn(data=data, extra=extra):
             d = {k: (v.copy() if isinstance(v, np.ndarray) else copy.deepcopy(v)) for k, v in data.items()}
@@ -155,7 +178,7 @@ def run(seed=0, tier='quick', hints=None, broken=False):
     for i in range(12 if tier == 'quick' else 400):
         fields = ['min_planar_area', 'min_volume', 'min_area_visibility', 'min_volume_visibility', 'min_width',
                   'min_height', 'min_depth']
-        vals = {f: (rng.choice([0.0, 0.25, 0.5, 2.0, 8.0]) if rng.random() < 0.5 else 0.0) for f in fields}
+        vals = {f: (rng.choice([0.0, 0.25, 0.5, 2.0, 8.0, 1e-05, 3e-07]) if rng.random() < 0.5 else 0.0) for f in fields}
         if i < len(fields):
             vals = {f: 0.0 for f in fields}
             vals[fields[i]] = 0.5 if 'visibility' in fields[i] else 3.0
